@@ -353,7 +353,9 @@ def _explore(rep, salt, reals):
         jobs.append((3, 2, ("cms", "hll"), "log8", salt))
         jobs.append((3, 2, ("cms", "hh"), "log16", salt))
         jobs.append((5, 2, ("cms", "hh", "hll"), "linear", salt))
+        jobs.append((3, 2, ("cms", "hll"), "linear", "heavy"))
     else:
+        jobs.append((4, 3, ("cms", "hll"), "linear", "heavy"))
         for names in P.ALL_COMBOS:
             jobs.append((5, 3, names, "linear", salt))
             jobs.append((4, 4, names, "linear", salt))
